@@ -695,24 +695,38 @@ type c30MixVariant struct {
 	AudO, AudA   bool
 	FireEarly    bool
 	Interceptors int
+	ExtraO       int  // video tracks the first offerer adds before the reverse re-offer
+	DCFirst      bool // round 1 negotiates a data channel only
+	LateA        int  // video tracks the first answerer adds before it re-offers
 }
 
 func c30MixVariants() []c30MixVariant {
 	u, p, f := SDPSemanticsUnifiedPlan, SDPSemanticsPlanB, SDPSemanticsUnifiedPlanWithFallback
 
 	return []c30MixVariant{
-		{"planb(2v)-offers-to-unified", p, u, 2, 0, false, false, false, 0},
-		{"planb(2v)-offers-to-fallback", p, f, 2, 0, false, false, false, 0},
-		{"unified-offers-to-planb(2v)", u, p, 1, 2, false, false, false, 0},
-		{"fallback-offers-to-planb(2v)", f, p, 1, 2, false, false, false, 0},
-		{"unified(recvonly)-offers-to-planb(2v+a)", u, p, 0, 2, false, true, false, 0},
-		{"planb(2v+a)-offers-to-unified(1v+a)", p, u, 2, 1, true, true, false, 1},
-		{"planb(3v)-offers-to-unified-early-ontrack", p, u, 3, 0, false, false, true, 0},
-		{"unified(2v)-offers-to-planb(2v)", u, p, 2, 2, true, true, false, 2},
-		{"planb(2v)-offers-to-planb(2v)", p, p, 2, 2, true, true, false, 0},
-		{"fallback(2v)-offers-to-planb(1v)", f, p, 2, 1, false, false, false, 0},
-		{"planb(1v)-offers-to-unified(2v)", p, u, 1, 2, true, true, false, 0},
-		{"unified(1v)-offers-to-planb(2v)-default-interceptors", u, p, 1, 2, true, true, false, 2},
+		{"planb(2v)-offers-to-unified", p, u, 2, 0, false, false, false, 0, 0, false, 0},
+		{"planb(2v)-offers-to-fallback", p, f, 2, 0, false, false, false, 0, 0, false, 0},
+		{"unified-offers-to-planb(2v)", u, p, 1, 2, false, false, false, 0, 0, false, 0},
+		{"fallback-offers-to-planb(2v)", f, p, 1, 2, false, false, false, 0, 0, false, 0},
+		{"unified(recvonly)-offers-to-planb(2v+a)", u, p, 0, 2, false, true, false, 0, 0, false, 0},
+		{"planb(2v+a)-offers-to-unified(1v+a)", p, u, 2, 1, true, true, false, 1, 0, false, 0},
+		{"planb(3v)-offers-to-unified-early-ontrack", p, u, 3, 0, false, false, true, 0, 0, false, 0},
+		{"unified(2v)-offers-to-planb(2v)", u, p, 2, 2, true, true, false, 2, 0, false, 0},
+		{"planb(2v)-offers-to-planb(2v)", p, p, 2, 2, true, true, false, 0, 0, false, 0},
+		{"fallback(2v)-offers-to-planb(1v)", f, p, 2, 1, false, false, false, 0, 0, false, 0},
+		{"planb(1v)-offers-to-unified(2v)", p, u, 1, 2, true, true, false, 0, 0, false, 0},
+		{"unified(1v)-offers-to-planb(2v)-default-interceptors", u, p, 1, 2, true, true, false, 2, 0, false, 0},
+		{"planb(1v)-offers-to-unified(1v)-then-planb-adds-video", p, u, 1, 1, false, false, false, 0, 1, false, 0},
+		{"planb(1v)-offers-to-fallback(1v)-then-planb-adds-video", p, f, 1, 1, false, false, false, 0, 1, false, 0},
+		{"planb(1v+a)-offers-to-unified(recvonly)-then-planb-adds-2-video", p, u, 1, 0, true, false, false, 1, 2, false, 0},
+		{"planb(1v)-offers-to-planb(1v)-then-adds-video", p, p, 1, 1, false, false, false, 0, 1, false, 0},
+		{"planb(recvonly)-offers-to-unified(1v)-then-planb-adds-2-video", p, u, 0, 1, false, false, false, 0, 2, false, 0},
+		{"planb(recvonly)-offers-to-fallback(1v)-then-planb-adds-2-video", p, f, 0, 1, false, false, false, 0, 2, false, 0},
+		{"planb(recvonly)-offers-to-unified(1v+a)-then-planb-adds-2-video-default-interceptors", p, u, 0, 1, false, true, false, 2, 2, false, 0},
+		{"planb(dc)-offers-to-unified-then-both-add-video(2,1)", p, u, 0, 0, false, false, false, 0, 2, true, 1},
+		{"planb(dc)-offers-to-fallback-then-both-add-video(2,1)", p, f, 0, 0, false, false, false, 0, 2, true, 1},
+		{"planb(dc)-offers-to-unified-then-both-add-video(3,2)-default-interceptors", p, u, 0, 0, false, false, false, 2, 3, true, 2},
+		{"planb(dc)-offers-to-planb-then-both-add-video(2,1)", p, p, 0, 0, false, false, false, 0, 2, true, 1},
 	}
 }
 
@@ -741,8 +755,12 @@ func (c *c30Child) caseMix(k int) {
 			_, _ = p.pc.AddTransceiverFromKind(RTPCodecTypeAudio, RTPTransceiverInit{Direction: RTPTransceiverDirectionRecvonly})
 		}
 	}
-	add(o, mv.VidO, mv.AudO)
-	add(a, mv.VidA, mv.AudA)
+	if mv.DCFirst {
+		_, _ = o.pc.CreateDataChannel("c30", nil)
+	} else {
+		add(o, mv.VidO, mv.AudO)
+		add(a, mv.VidA, mv.AudA)
+	}
 	cur := map[string]any{
 		"phase": "planb-mix", "variant": mv.Name, "offerer_semantics": c30SemName(mv.SemO), "answerer_semantics": c30SemName(mv.SemA),
 		"offerer_video_tracks": mv.VidO, "answerer_video_tracks": mv.VidA, "offerer_audio": mv.AudO, "answerer_audio": mv.AudA,
@@ -776,7 +794,14 @@ func (c *c30Child) caseMix(k int) {
 	if connected && okAll {
 		// second round with the roles swapped: the former answerer re-offers (it keeps the mids it learned from the
 		// Plan-B side), the former offerer answers — the answer of a Plan-B peer lists all its tracks in one section
+		for i := 0; i < mv.ExtraO; i++ {
+			c.addTrack(o, RTPCodecTypeVideo)
+		}
+		for i := 0; i < mv.LateA; i++ {
+			c.addTrack(a, RTPCodecTypeVideo)
+		}
 		cur["stage"] = "reverse re-offer"
+		cur["first_offerer_extra_video_tracks"] = mv.ExtraO
 		c.setCur(cur)
 		c.setPos(2)
 		err2, ok := c.call("reverse-exchange", func() error {
@@ -790,7 +815,7 @@ func (c *c30Child) caseMix(k int) {
 			return e
 		})
 		okAll = ok
-		c.Seen("mix_outcome", fmt.Sprintf("%s: reverse-exchange=%s", mv.Name, c30ErrClassShort(err2)))
+		c.Seen("mix_outcome", fmt.Sprintf("%s: reverse-exchange=%s", mv.Name, firstN(c30ErrClass(err2), 90)))
 		for i := 0; i < 5 && okAll; i++ {
 			o.sendMedia(2)
 			a.sendMedia(2)
